@@ -64,6 +64,7 @@ AggCase(op, pairs, comps, vm, mut) == [op |-> op, k |-> 0, m |-> 0, vk |-> 0, vm
                                        pairs |-> pairs, comps |-> comps]
 Three == <<[k |-> 1, m |-> 1], [k |-> 2, m |-> 2], [k |-> 3, m |-> 3]>>
 Replace(s, i, x) == [s EXCEPT ![i] = x]
+SelectSeq2(s, i) == [q \in 1..(Len(s) - 1) |-> IF q < i THEN s[q] ELSE s[q + 1]]   \* s without its i-th element
 ThreeVariants ==
   {Three, <<Three[2], Three[3], Three[1]>>, <<Three[3], Three[2], Three[1]>>}
   \cup {Replace(Three, i, [k |-> Three[i].k, m |-> (Three[i].m % 3) + 1]) : i \in 1..3}          \* one wrong message
@@ -87,12 +88,57 @@ AggScenarios ==
        \cup {AggCase(op, [i \in 1..3 |-> [k |-> i, m |-> 0]], [i \in 1..3 |-> [k |-> i, m |-> 1]], 1, mu) : mu \in AggMuts}
      : op \in {"bls.fast", "bls.fast_anemone"}}
 
-Scenarios == SingleScenarios \cup AggScenarios
+\* ---------------------------------------------------------------------------
+\* Algebraically degenerate values (both tiers, nothing sampled).  They are encodings that NO key holder can have
+\* produced: a public key that is nobody's (a small-order point of edwards25519 - honest keys are multiples of 8 of the
+\* base point and never have small order -, the point at infinity of BLS12-381) and signatures written down without a
+\* secret key (small-order R with s = 0 / 1 / the group order L, r or s equal to 0 or to the group order n, the
+\* point at infinity).  In the ideal model such a key is JunkPk and such a signature JunkSig: nothing verifies.
+\*   mut = [target |-> "craft", kind, region, idx, mask]  (meaning of region / idx / mask per kind, see harness)
+Craft(kd, r, i, x) == Mut("craft", kd, r, i, x)
+CraftPk  == {"ed.torsion", "ed.torsionPk", "bls.infPk", "bls.infBoth", "bls.infPkAt", "bls.infAll"}     \* the key is nobody's
+CraftSig == {"ed.torsion", "ed.torsionR", "ed.sPlusL", "secp.r0", "secp.s0", "secp.r0s0", "secp.rn", "secp.sn", "secp.twin",
+             "bls.infSig", "bls.infBoth", "bls.infAll"}                                                  \* nobody signed
+EdS == {"s0", "s1", "sL"}
+EdCraft ==
+  \* small-order public key idx x small-order R mask x s over 2 messages (k only names the unused honest signer)
+  {Single("ed.verify", 1, vm, 1, vm, Craft("ed.torsion", sv, i, j)) : vm \in 1..2, i \in 0..7, j \in 0..7, sv \in EdS}
+  \* honest public key, small-order R, s = 0 / 1 / L / the honest s
+  \cup {Single("ed.verify", k, k, k, k, Craft("ed.torsionR", sv, i, 0)) : k \in 1..2, i \in 0..7, sv \in EdS \cup {"sHonest"}}
+  \* small-order public key against an honest signature
+  \cup {Single("ed.verify", k, k, k, k, Craft("ed.torsionPk", "honest", i, 0)) : k \in 1..2, i \in 0..7}
+  \* the honest signature with s + L (the same scalar, non-canonical encoding)
+  \cup {Single("ed.verify", k, m, k, m, Craft("ed.sPlusL", "honest", 0, 0)) : k \in K, m \in 1..2}
+\* secp256k1: r / s zero or equal to the group order, and the high-s twin (r, n - s) of an honest signature, each with
+\* every recovery id (idx; 4 = the honest id, 5 = the honest id with its parity bit flipped)
+SecpCraft ==
+  {Single(op, k, k, k, k, Craft(kd, "v", v, 0)) : op \in {"secp.verify", "secp.recover"}, k \in K,
+      kd \in {"secp.r0", "secp.s0", "secp.r0s0", "secp.rn", "secp.sn", "secp.twin"}, v \in 0..5}
+\* BLS12-381: the point at infinity as public key / as signature, alone and inside aggregates
+BlsCraft ==
+  {Single("bls.verify", k, k, k, k, Craft(kd, "inf", 0, 0)) : k \in K, kd \in {"bls.infPk", "bls.infSig", "bls.infBoth"}}
+  \* aggregate_verify: pair idx carries the infinity key; the signature aggregates the OTHER pairs' honest signatures
+  \* (region "rest": the case that balances algebraically) or all of them (region "all")
+  \cup UNION {{AggCase("bls.agg", p, IF r = "rest" THEN SelectSeq2(p, i) ELSE p, 0, Craft("bls.infPkAt", r, i, 0)) :
+                  i \in 1..Len(p), r \in {"rest", "all"}} : p \in {<<Three[1], Three[2]>>, Three, <<Three[1], Three[1]>>}}
+  \cup {AggCase("bls.agg", p, p, 0, Craft(kd, "inf", 0, 0)) : p \in {<<Three[1]>>, Three}, kd \in {"bls.infSig", "bls.infAll"}}
+  \* fast_aggregate_verify (v1 and anemone): key idx of the list is the infinity key; components = the other keys / all
+  \cup UNION {UNION {{AggCase(op, p, [q \in DOMAIN (IF r = "rest" THEN SelectSeq2(p, i) ELSE p) |->
+                                          [k |-> (IF r = "rest" THEN SelectSeq2(p, i) ELSE p)[q].k, m |-> 1]], 1, Craft("bls.infPkAt", r, i, 0)) :
+                         i \in 1..Len(p), r \in {"rest", "all"}}
+                      : p \in {[q \in 1..2 |-> [k |-> q, m |-> 0]], [q \in 1..3 |-> [k |-> q, m |-> 0]]}}
+                \cup {AggCase(op, p, [q \in DOMAIN p |-> [k |-> p[q].k, m |-> 1]], 1, Craft(kd, "inf", 0, 0)) :
+                         p \in {<<[k |-> 1, m |-> 0]>>, [q \in 1..3 |-> [k |-> q, m |-> 0]]}, kd \in {"bls.infSig", "bls.infAll"}}
+              : op \in {"bls.fast", "bls.fast_anemone"}}
+CraftScenarios == EdCraft \cup SecpCraft \cup BlsCraft
+
+Scenarios == SingleScenarios \cup AggScenarios \cup CraftScenarios
 
 ---------------------------------------------------------------------------
 \* the terms a scenario hands to the primitive
-SigTerm(s) == IF s.mut.target = "sig" THEN JunkSig ELSE Sign(s.k, s.m)
-PkTerm(s)  == IF s.mut.target = "pk" THEN JunkPk ELSE PK(s.vk)
+IsCraft(s, kinds) == s.mut.target = "craft" /\ s.mut.kind \in kinds
+SigTerm(s) == IF s.mut.target = "sig" \/ IsCraft(s, CraftSig) THEN JunkSig ELSE Sign(s.k, s.m)
+PkTerm(s)  == IF s.mut.target = "pk" \/ IsCraft(s, CraftPk) THEN JunkPk ELSE PK(s.vk)
 MsgTerm(s) == IF s.mut.target = "msg" THEN 0 ELSE s.vm
 KeyName(k) == IF k = 1 THEN "k1" ELSE IF k = 2 THEN "k2" ELSE "k3"
 Bool(b) == IF b THEN "true" ELSE "false"
@@ -101,14 +147,21 @@ Bool(b) == IF b THEN "true" ELSE "false"
 \* first one (bls.agg) / the common one (bls.fast*)
 AggPairs(s) ==
   [i \in DOMAIN s.pairs |->
-     [pk |-> IF s.mut.target = "pk" /\ i = 1 THEN JunkPk ELSE PK(s.pairs[i].k),
+     [pk |-> IF (s.mut.target = "pk" /\ i = 1) \/ (IsCraft(s, {"bls.infPkAt"}) /\ i = s.mut.idx) \/ IsCraft(s, {"bls.infAll"})
+             THEN JunkPk ELSE PK(s.pairs[i].k),
       m  |-> IF s.op = "bls.agg"
              THEN (IF s.mut.target = "msg" /\ i = 1 THEN 0 ELSE s.pairs[i].m)
              ELSE (IF s.mut.target = "msg" THEN 0 ELSE s.vm)]]
-AggTerm(s) == IF s.mut.target = "sig" THEN JunkAgg ELSE Agg(s.comps)
+AggTerm(s) == IF s.mut.target = "sig" \/ IsCraft(s, CraftSig) THEN JunkAgg ELSE Agg(s.comps)
 
+\* The high-s twin (r, n - s) of an honest ECDSA signature is the one crafted value that is algebraically THE SAME
+\* signature of the same key over the same message (DESIGN: Verify <=> sigma \in Sigs(alg, sk, m), a set).  The strict
+\* reading ("any change to the signature makes verification fail") is kept for verify_secp256k1; for recovery the twin
+\* may also return the signer - nothing that the key holder did not sign is accepted (multi-byte change, outside the
+\* single-byte quantifier of the statement).  What the code does is recorded in the evidence.
 Allowed(s) ==
-  IF s.op = "secp.recover"
+  IF s.op = "secp.recover" /\ IsCraft(s, {"secp.twin"}) THEN {KeyName(s.k), "none", "other"}
+  ELSE IF s.op = "secp.recover"
   THEN LET r == Recover(MsgTerm(s), SigTerm(s)) IN IF r = 0 THEN {"none", "other"} ELSE {KeyName(r)}
   ELSE IF s.op \in SingleOps THEN {Bool(Verify(PkTerm(s), MsgTerm(s), SigTerm(s)))}
   ELSE {Bool(AggVerify(AggPairs(s), AggTerm(s)))}
@@ -122,9 +175,12 @@ Laws ==
   /\ c.op \in SingleOps /\ c.mut.target = "none" =>
         (Verify(PkTerm(c), MsgTerm(c), SigTerm(c)) <=> (c.k = c.vk /\ c.m = c.vm))
   /\ c.op \in SingleOps /\ c.mut.target # "none" => ~Verify(PkTerm(c), MsgTerm(c), SigTerm(c))
-  /\ c.op \in SingleOps => (Recover(MsgTerm(c), SigTerm(c)) = c.k <=> (c.mut.target \notin {"sig", "msg"} /\ c.m = c.vm))
+  /\ c.op \in SingleOps => (Recover(MsgTerm(c), SigTerm(c)) = c.k <=> (c.mut.target \notin {"sig", "msg"} /\ ~IsCraft(c, CraftSig) /\ c.m = c.vm))
   /\ c.op \notin SingleOps =>
         (AggVerify(AggPairs(c), AggTerm(c)) <=> EveryComponentValid(AggPairs(c), AggTerm(c)))
   /\ c.op \notin SingleOps /\ c.mut.target # "none" => ~AggVerify(AggPairs(c), AggTerm(c))
+  \* a crafted (key, signature) - something no key holder produced - verifies for nobody and recovers no owned key
+  /\ c.mut.target = "craft" /\ c.op \in SingleOps =>
+        \A k \in K, m \in M : ~Verify(PkTerm(c), m, SigTerm(c)) /\ (c.mut.kind \in CraftSig => Recover(m, SigTerm(c)) = 0)
 Emit == PrintT(<<"B", ToJson([s |-> c, allowed |-> Allowed(c)])>>)
 =============================================================================
